@@ -26,6 +26,14 @@
 namespace bloc
 {
 
+static Integer toInteger(Numeric d)
+{
+  /* it must fit in an integer: NaN fails the test */
+  if (!(d >= Numeric(INT64_MIN) && d < -Numeric(INT64_MIN)))
+    throw RuntimeError(EXC_RT_OUT_OF_RANGE);
+  return Integer(d);
+}
+
 Value& RSUBSTRExpression::value(Context & ctx) const
 {
   Value& val = _args[0]->value(ctx);
@@ -53,7 +61,7 @@ Value& RSUBSTRExpression::value(Context & ctx) const
     case Type::NUMERIC:
       if (a1.isNull())
         return val;
-      b = Integer(*a1.numeric());
+      b = toInteger(*a1.numeric());
       break;
     default:
       throw RuntimeError(EXC_RT_FUNC_ARG_TYPE_S, KEYWORDS[oper]);
